@@ -8,22 +8,27 @@ Import ListNotations.
 Lemma quiet_app t1 t2 : quiet (t1 ++ t2) = quiet t1 && quiet t2.
 Proof. induction t1 as [|e t1 IH]; [reflexivity|]. destruct e; cbn; auto. Qed.
 
-Lemma span_quiet_skip t : quiet t = true -> forall ph d r, span_ok ph d (t ++ r) = span_ok ph d r.
+Lemma span_quiet_skip t : quiet t = true -> forall ph d w r, span_ok ph d w (t ++ r) = span_ok ph d w r.
 Proof.
-  induction t as [|e t IH]; intros Hq ph d r; [reflexivity|].
+  induction t as [|e t IH]; intros Hq ph d w r; [reflexivity|].
   destruct e; cbn in Hq; try discriminate; cbn; apply IH; exact Hq.
 Qed.
 
-Lemma span_quiet_ok t : quiet t = true -> forall ph d, span_ok ph d t = true.
+Lemma span_quiet_ok t : quiet t = true -> forall ph d w, span_ok ph d w t = true.
 Proof.
-  intros Hq ph d. rewrite <- (app_nil_r t). rewrite (span_quiet_skip t Hq). reflexivity.
+  intros Hq ph d w. rewrite <- (app_nil_r t). rewrite (span_quiet_skip t Hq). reflexivity.
 Qed.
+
+Lemma nowrite_app t1 t2 : nowrite (t1 ++ t2) = nowrite t1 && nowrite t2.
+Proof. induction t1 as [|e t1 IH]; [reflexivity|]. destruct e; cbn; auto. rewrite IH. apply andb_assoc. Qed.
 
 Section Span.
 Variable prog : list (list stmt).
 Variable env : nat -> bool.
 Variable q : nat -> bool.
+Variable nw : nat -> bool.
 Hypothesis qchecked : forall f body, nth_error prog f = Some body -> quiet_fn q env f body = true.
+Hypothesis nwchecked : forall f body, nth_error prog f = Some body -> nowrite_fn env nw f body = true.
 
 (* quiet statements produce quiet traces, to any call depth *)
 Lemma quiet_both :
@@ -43,47 +48,92 @@ Proof.
   - intros fi g body t Hg H IH Hq. cbn in Hq. rewrite Hg in Hq. apply IH. exact Hq.
 Qed.
 
-(* inside the section (depth > 0) any execution whatsoever stays inside and comes back to its depth *)
-Lemma inside_both :
-  (forall fi items t, exec prog env fi items t -> forall d r, 0 < d -> span_ok 1 d (t ++ r) = span_ok 1 d r) /\
-  (forall fi s t, exec1 prog env fi s t -> forall d r, 0 < d -> span_ok 1 d (t ++ r) = span_ok 1 d r).
+(* statements that never take the write side produce traces without a write-side acquisition *)
+Lemma nowrite_both :
+  (forall fi items t, exec prog env fi items t -> forallb (nowrite_stmt env nw) items = true -> nowrite t = true) /\
+  (forall fi s t, exec1 prog env fi s t -> nowrite_stmt env nw s = true -> nowrite t = true).
 Proof.
   apply exec_both.
   - reflexivity.
-  - intros fi items s t1 t2 Hin H1 IH1 H2 IH2 d r Hd. rewrite <- app_assoc, IH1, IH2; auto.
-  - intros fi k d r Hd. reflexivity.
+  - intros fi items s t1 t2 Hin H1 IH1 H2 IH2 Hall.
+    rewrite nowrite_app, IH1, IH2; auto. rewrite forallb_forall in Hall. apply Hall. exact Hin.
   - reflexivity.
-  - intros fi tg f body t Hin Hn H IH d r Hd. cbn [app span_ok]. rewrite <- app_assoc, IH by exact Hd. reflexivity.
-  - intros fi l body t H IH d r Hd. cbn [app span_ok]. rewrite <- app_assoc, IH by lia. cbn [app span_ok].
-    destruct d as [|d]; [lia|]. reflexivity.
-  - intros fi g body t Hg H IH d r Hd. apply IH. exact Hd.
+  - reflexivity.
+  - intros fi tg f body t Hin Hn H IH Hq. cbn in Hq. rewrite forallb_forall in Hq. specialize (Hq f Hin).
+    pose proof (nwchecked f body Hn) as Hc. unfold nowrite_fn in Hc. rewrite Hq in Hc. cbn in Hc.
+    cbn. rewrite nowrite_app, (IH Hc). reflexivity.
+  - intros fi l body t H IH Hq. cbn in Hq. apply andb_true_iff in Hq as [Hl Hb].
+    cbn. rewrite Hl. cbn. rewrite nowrite_app, (IH Hb). reflexivity.
+  - intros fi g body t Hg H IH Hq. cbn in Hq. rewrite Hg in Hq. apply IH. exact Hq.
+Qed.
+
+(* inside the section (depth > 0) an execution stays inside and comes back to its depth -- any execution
+   when the write side is held, an execution without write-side acquisitions otherwise *)
+Lemma inside_both :
+  (forall fi items t, exec prog env fi items t -> forall d w r, 0 < d -> (w = true \/ nowrite t = true) ->
+     span_ok 1 d w (t ++ r) = span_ok 1 d w r) /\
+  (forall fi s t, exec1 prog env fi s t -> forall d w r, 0 < d -> (w = true \/ nowrite t = true) ->
+     span_ok 1 d w (t ++ r) = span_ok 1 d w r).
+Proof.
+  apply exec_both.
+  - reflexivity.
+  - intros fi items s t1 t2 Hin H1 IH1 H2 IH2 d w r Hd Hw. rewrite <- app_assoc.
+    assert (Hw1 : w = true \/ nowrite t1 = true) by (destruct Hw as [Hw|Hw]; [left; exact Hw|right; rewrite nowrite_app in Hw; apply andb_true_iff in Hw; tauto]).
+    assert (Hw2 : w = true \/ nowrite t2 = true) by (destruct Hw as [Hw|Hw]; [left; exact Hw|right; rewrite nowrite_app in Hw; apply andb_true_iff in Hw; tauto]).
+    rewrite IH1, IH2; auto.
+  - intros fi k d w r Hd Hw. reflexivity.
+  - reflexivity.
+  - intros fi tg f body t Hin Hn H IH d w r Hd Hw. cbn [app span_ok]. rewrite <- app_assoc, IH; [reflexivity|exact Hd|].
+    destruct Hw as [Hw|Hw]; [left; exact Hw|right]. cbn in Hw. rewrite nowrite_app in Hw. apply andb_true_iff in Hw. tauto.
+  - intros fi l body t H IH d w r Hd Hw. cbn [app span_ok].
+    assert (Hup : is_w l && negb w = false).
+    { destruct Hw as [Hw|Hw]; [subst w; apply andb_false_r|]. cbn in Hw. apply andb_true_iff in Hw as [Hl _].
+      apply negb_true_iff in Hl. rewrite Hl. reflexivity. }
+    rewrite Hup. rewrite <- app_assoc, IH; [|lia|].
+    + cbn [app span_ok]. destruct d as [|d]; [lia|]. reflexivity.
+    + destruct Hw as [Hw|Hw]; [left; exact Hw|right]. cbn in Hw. apply andb_true_iff in Hw as [_ Hw].
+      rewrite nowrite_app in Hw. apply andb_true_iff in Hw. tauto.
+  - intros fi g body t Hg H IH d w r Hd Hw. apply IH; assumption.
 Qed.
 
 Theorem one_span_sound fi : forall items t, exec_seq prog env fi items t ->
-  forall seen, one_span_items q env seen items = true ->
-  span_ok (if seen then 2 else 0) 0 t = true.
+  forall seen w, one_span_items q env nw seen items = true ->
+  span_ok (if seen then 2 else 0) 0 w t = true.
 Proof.
-  induction 1 as [items|s r t H IH|s r t1 t2 H1 H IH]; intros seen Hs.
+  induction 1 as [items|s r t H IH|s r t1 t2 H1 H IH]; intros seen w Hs.
   - reflexivity.
   - cbn [one_span_items] in Hs. destruct (quiet_stmt q env s) eqn:Hq.
     + apply IH. exact Hs.
-    + destruct s; try discriminate. apply andb_true_iff in Hs as [Hseen Hs]. apply negb_true_iff in Hseen. subst seen.
+    + destruct s; try discriminate. apply andb_true_iff in Hs as [Hs1 Hs]. apply andb_true_iff in Hs1 as [Hseen _].
+      apply negb_true_iff in Hseen. subst seen.
       (* the with-block is skipped: what follows is quiet, hence fine from phase 0 as well *)
-      specialize (IH true Hs). cbn in IH.
+      specialize (IH true w Hs). cbn in IH.
       clear -IH. revert IH. generalize 0 at 1 3. intros d.
       induction t as [|e t IHt]; [reflexivity|]. destruct e; cbn; try discriminate; auto.
   - cbn [one_span_items] in Hs. destruct (quiet_stmt q env s) eqn:Hq.
     + rewrite (span_quiet_skip t1 (proj2 quiet_both _ _ _ H1 Hq)). apply IH. exact Hs.
-    + destruct s; try discriminate. apply andb_true_iff in Hs as [Hseen Hs]. apply negb_true_iff in Hseen. subst seen.
+    + destruct s; try discriminate. apply andb_true_iff in Hs as [Hs1 Hs]. apply andb_true_iff in Hs1 as [Hseen Hkind].
+      apply negb_true_iff in Hseen. subst seen.
       inversion H1 as [| | |fi' l' body' t' Hb|]; subst.
-      cbn [app span_ok]. rewrite <- app_assoc. rewrite (proj1 inside_both _ _ _ Hb) by lia.
-      cbn [app span_ok]. exact (IH true Hs).
+      cbn [app span_ok]. rewrite <- app_assoc. rewrite (proj1 inside_both _ _ _ Hb); [|lia|].
+      * cbn [app span_ok]. exact (IH true (is_w l) Hs).
+      * apply orb_true_iff in Hkind as [Hk|Hk]; [left; exact Hk|right; exact (proj1 nowrite_both _ _ _ Hb Hk)].
 Qed.
 End Span.
 
 Lemma quiet_prog_from_nth q env prog : forall i,
   quiet_prog_from q env i prog = true ->
   forall f body, nth_error prog f = Some body -> quiet_fn q env (i + f) body = true.
+Proof.
+  induction prog as [|b r IH]; intros i H f body Hn; [destruct f; discriminate|].
+  cbn in H. apply andb_true_iff in H as [H1 H2]. destruct f as [|f]; cbn in Hn.
+  - injection Hn as <-. rewrite Nat.add_0_r. exact H1.
+  - replace (i + S f) with (S i + f) by lia. apply IH; assumption.
+Qed.
+
+Lemma nowrite_prog_from_nth env nw prog : forall i,
+  nowrite_prog_from env nw i prog = true ->
+  forall f body, nth_error prog f = Some body -> nowrite_fn env nw (i + f) body = true.
 Proof.
   induction prog as [|b r IH]; intros i H f body Hn; [destruct f; discriminate|].
   cbn in H. apply andb_true_iff in H as [H1 H2]. destruct f as [|f]; cbn in Hn.
